@@ -48,6 +48,11 @@ fn main() {
                 eprintln!("HARNESS ERROR: entropy seam ineffective: {e}");
                 std::process::exit(2);
             }
+            // the seeded registry generator must agree with the real scale-info derive
+            if let Err(e) = gen::selftest() {
+                eprintln!("HARNESS ERROR: {e}");
+                std::process::exit(2);
+            }
             println!("VERIF_SEED={} tier={} workers={}", ctx.seed, ctx.tier.name(), ctx.workers);
             match prop.as_str() {
                 "C06" => c06::check(&ctx),
